@@ -281,6 +281,41 @@ var Ops = map[string]func(){
 	"x25519.X25519(peer value making secret #2's result start with 24 zero bytes)": func() { out, _ := x25519.X25519(Cur[:32], peerStruct[1]); put(out) },
 	"x25519.X25519(peer value making secret #2's result end with 8 zero bytes)":    func() { out, _ := x25519.X25519(Cur[:32], peerStruct[2]); put(out) },
 	"x25519.X25519(peer value making secret #2's result end with 24 zero bytes)":   func() { out, _ := x25519.X25519(Cur[:32], peerStruct[3]); put(out) },
+	// comparisons whose public operand EQUALS one of the secrets (#2): a comparison that stops at the first difference,
+	// or takes a shortcut for operands in a particular form (freshly decoded: Z = 1), runs differently for that secret
+	"EdwardsPoint.Equal(decoded public point = [secret #2]B, decoded [secret]B)": func() {
+		var p curve.EdwardsPoint
+		p.MulBasepoint(curve.ED25519_BASEPOINT_TABLE, sc(Cur[:32]))
+		var cy curve.CompressedEdwardsY
+		cy.SetEdwardsPoint(&p)
+		var q curve.EdwardsPoint
+		q.SetCompressedY(&cy)
+		sinkBool[0] = eqEdwards.Equal(&q) == 1
+		sinkBool[1] = cy.Equal(&eqCompressed) == 1
+	},
+	"RistrettoPoint.Equal / CompressedRistretto.Equal(public = [secret #2]B)": func() {
+		var p curve.RistrettoPoint
+		p.MulBasepoint(curve.RISTRETTO_BASEPOINT_TABLE, sc(Cur[:32]))
+		var cr curve.CompressedRistretto
+		cr.SetRistrettoPoint(&p)
+		var q curve.RistrettoPoint
+		q.SetCompressed(&cr)
+		sinkBool[0] = eqRistretto.Equal(&q) == 1
+		sinkBool[1] = cr.Equal(&eqCompressedR) == 1
+	},
+	"Scalar.Equal / field.Equal / MontgomeryPoint.Equal(public = secret #2)": func() {
+		sinkBool[0] = sc(Cur[:32]).Equal(eqScalar) == 1
+		sinkBool[1] = fe(Cur[:32]).Equal(eqField) == 1
+		var m curve.MontgomeryPoint
+		copy(m[:], Cur[:32])
+		sinkBool[2] = m.Equal(&eqMont) == 1
+	},
+	"Scalar.BatchInvert(batch of secret scalars; zero for the all-zero secret)": func() {
+		a, b := sc(Cur[:32]), sc(Cur[32:])
+		c3 := scalar.NewFromUint64(7)
+		scalar.New().BatchInvert([]*scalar.Scalar{a, c3, b})
+		a.ToBytes(Out[:32])
+	},
 	// the entropy stream is the secret: key generation and nonce sampling read it through the caller's io.Reader
 	"Scalar.SetRandom(secret entropy)": func() {
 		s, _ := scalar.New().SetRandom(&secretReader{})
@@ -468,8 +503,33 @@ func Init(big bool) {
 	} {
 		peerStruct[i], _ = hex.DecodeString(h)
 	}
+	// public operands equal to secret #2
+	{
+		s2 := Secrets(3)[2]
+		eqScalar = sc(s2[:32])
+		eqField = fe(s2[:32])
+		copy(eqMont[:], s2[:32])
+		var p curve.EdwardsPoint
+		p.MulBasepoint(curve.ED25519_BASEPOINT_TABLE, eqScalar)
+		eqCompressed.SetEdwardsPoint(&p)
+		eqEdwards.SetCompressedY(&eqCompressed)
+		var rp curve.RistrettoPoint
+		rp.MulBasepoint(curve.RISTRETTO_BASEPOINT_TABLE, eqScalar)
+		eqCompressedR.SetRistrettoPoint(&rp)
+		eqRistretto.SetCompressed(&eqCompressedR)
+	}
 	graftInit()
 }
+
+var (
+	eqScalar      *scalar.Scalar
+	eqField       *field.Element
+	eqMont        curve.MontgomeryPoint
+	eqCompressed  curve.CompressedEdwardsY
+	eqEdwards     curve.EdwardsPoint
+	eqCompressedR curve.CompressedRistretto
+	eqRistretto   curve.RistrettoPoint
+)
 
 var peerStruct [4][]byte
 
